@@ -691,7 +691,7 @@ def split_output(output_text):
     per = {}
     for l in output_text.splitlines():
         t = l.split(" ", 2)
-        if len(t) >= 2 and t[0] in "NSXEPTOU" and len(t[0]) == 1:
+        if len(t) >= 2 and t[0] in "NSXEPTOUGQ" and len(t[0]) == 1:
             per.setdefault(t[1], []).append(l)
     return {k: "\n".join(v) for k, v in per.items()}
 
@@ -707,7 +707,7 @@ def judge(history_line, output_text, strict=True):
 
     def new_inc(slot, step, parent=None):
         nid[0] += 1
-        incs[nid[0]] = {"slot": slot, "born": step, "parent": parent, "O": [], "P": [], "T": []}
+        incs[nid[0]] = {"slot": slot, "born": step, "parent": parent, "O": [], "P": [], "T": [], "Q": {}}
         cur[slot] = nid[0]
 
     for l in output_text.splitlines():
@@ -738,6 +738,22 @@ def judge(history_line, output_text, strict=True):
                         raise GeneratorBug("hash for slot %s without incarnation: %s" % (s, l))
                     continue
                 incs[i][tag].append((step, int(s), hv))
+        elif tag == "Q":
+            # per-getter hashes, in the order the getters were called
+            for kv in t[3:]:
+                sl, rest = kv.split("=", 1)
+                i = cur.get(int(sl))
+                if i is None:
+                    continue
+                got = dict(x.split(":") for x in rest.split(","))
+                order = [x.split(":")[0] for x in rest.split(",")]
+                for name, hv in got.items():
+                    if name != "tbox":
+                        incs[i]["Q"].setdefault(name, []).append((step, int(sl), hv, order[0]))
+                if got.get("tbox") not in (None, "-", "ok"):
+                    fails.append({"key": "bbox-differs-from-exported-vertices", "step": step, "slot": int(sl),
+                                  "what": "BoundingBox() bits %s differ from the tight box of the vertices of GetMeshGL64() %s "
+                                          "(getter order: %s)" % (got.get("bbox"), got.get("tbox"), " ".join(order))})
         elif tag == "U":
             if len(t) > 6 and t[6].startswith("BAD"):
                 fails.append({"key": "refcount-below-live-sharers", "step": step, "slot": -1, "what": l})
@@ -754,6 +770,19 @@ def judge(history_line, output_text, strict=True):
                                   "what": "%s-hash of the object born at step %s was %s at step %s and is %s at step %s (slot %d)"
                                           % (st, inc["born"], obs[0][2], obs[0][0], hv, step, slot)})
                     break
+    # every getter separately: first observation vs all later ones, and vs the same getter on the source of a copy
+    for i, inc in sorted(incs.items()):
+        for name, obs in sorted(inc["Q"].items()):
+            bad = next((o for o in obs[1:] if o[2] != obs[0][2]), None)
+            if bad:
+                fails.append({"key": "getter-changes:" + name, "step": bad[0], "slot": bad[1],
+                              "what": "%s of the object born at step %s hashed %s at step %s (first getter called: %s) and %s at step %s"
+                                      % (name, inc["born"], obs[0][2], obs[0][0], obs[0][3], bad[2], bad[0])})
+            par = inc["parent"]
+            if par in incs and name in incs[par]["Q"] and obs and incs[par]["Q"][name][0][2] != obs[0][2]:
+                fails.append({"key": "copy-getter-differs:" + name, "step": obs[0][0], "slot": obs[0][1],
+                              "what": "%s of a copy (born step %s) hashed %s, of its source %s"
+                                      % (name, inc["born"], obs[0][2], incs[par]["Q"][name][0][2])})
     # copies: first consistent hash of the copy equals that of its source
     for i, inc in sorted(incs.items()):
         par = inc["parent"]
@@ -954,9 +983,11 @@ def gen_deferred(rng, hid, nsteps):
     def lazyxf(s):
         d = free()
         if d is None: return None
-        k = rng.choice(["tr", "tr", "tr", "rot", "sc", "xf"])
+        # rotations by non-multiples of 90 degrees (15 degree units) of spheres/cylinders/tetrahedra are common:
+        # a pending non-axis-aligned transform on a solid that does not fill its box
+        k = rng.choice(["tr", "tr", "rot", "rot", "rot", "sc", "xf"])
         if k == "tr": ops.append("tr:%d:%d:%d:%d:%d" % (d, s, _r(rng, -9, 9), _r(rng, -4, 4), _r(rng, -4, 4)))
-        elif k == "rot": ops.append("rot:%d:%d:%d:%d:%d" % (d, s, _r(rng, 0, 6), _r(rng, 0, 6), _r(rng, 0, 6)))
+        elif k == "rot": ops.append("rot:%d:%d:%d:%d:%d" % (d, s, rng.choice([1, 2, 3, 4, 5, 7]), _r(rng, 0, 6), rng.choice([0, 1, 2, 5])))
         elif k == "sc": ops.append("sc:%d:%d:%d:%d:%d" % (d, s, _nz(rng, -6, 6), _nz(rng, 1, 6), _nz(rng, 1, 6)))
         else: ops.append("xf:%d:%d:%d" % (d, s, rng.choice([0, 1, 4, 5])))
         live.append(d); unseen.add(d)
@@ -1011,7 +1042,9 @@ def gen_deferred(rng, hid, nsteps):
         elif r < 0.68 and len(live) >= 2:
             boolean(*rng.sample(live, 2))
         elif r < 0.76 and live:
-            lazyxf(rng.choice(live))
+            v = lazyxf(rng.choice(live))
+            if v is not None and rng.random() < 0.3:
+                ops.append("look:%d" % v); unseen.discard(v)      # first observation while the transform is pending
         elif r < 0.82 and live:
             d = free()
             if d is not None:
